@@ -94,6 +94,12 @@ def gen_scenario(r):
         d = os.path.normpath(os.path.join(base, r.choice(["", "db", "app", "other"]), name + ".incn"))
         if d != tr and not (layout == "mod_dir" and os.path.dirname(os.path.dirname(tr)) == os.path.dirname(d)):
             decoys.append(d)
+    if r.random() < 0.3:
+        # a file named like the imported *item*, inside a directory named like the module: `import a::m::item` must still mean
+        # item `item` of module `a::m`, not a module `a::m::item`
+        d = os.path.normpath(os.path.join(base, target_dir, name, item + ".incn"))
+        if d != tr:
+            decoys.append(d)
     ambiguous = False
     if r.random() < 0.15 and layout == "file":
         # both a file and a mod directory, or both extensions: documented preference is .incn before .incan; file before mod dir
@@ -133,8 +139,31 @@ def observe(scn_list):
         write_tree(d, s["files"])
         roots.append(d)
         reqs.append({"op": "resolve", "entry": os.path.join(d, s["entry"])})
+    # the language server's side is observed on the real server: open the entry file and record for which files it publishes
+    # diagnostics (every dependency it loads gets a publish; the harness waits for the expected number, 60 virtual seconds at most)
+    lsp_reqs = []
+    for s, d in zip(scn_list, roots):
+        ep = os.path.join(d, s["entry"])
+        lsp_reqs.append({"op": "lsp", "delays": [], "backpressure_ms": 0,
+                         "phases": [{"events": [{"type": "open", "uri": "file://" + ep, "version": 1, "text": s["files"][s["entry"]]}],
+                                     "extra_publishes": len(s["expected"]), "probes": []}]})
     try:
-        return hc.run_requests(reqs, nproc=NCPU, shard=100)
+        reps = hc.run_requests(reqs, nproc=NCPU, shard=100)
+        lreps = hc.run_requests(lsp_reqs, nproc=NCPU, shard=100, timeout=120)
+        for rep, lrep, s, d in zip(reps, lreps, scn_list, roots):
+            if isinstance(lrep, dict) and "log" in lrep:
+                real = set()
+                for e in lrep["log"]:
+                    m = e.get("msg", {})
+                    if e.get("dir") == "s2c" and m.get("method") == "textDocument/publishDiagnostics":
+                        pth = m["params"]["uri"][len("file://"):]
+                        rel = os.path.relpath(os.path.realpath(pth), os.path.realpath(d))
+                        if rel != os.path.normpath(s["entry"]):
+                            real.add(rel)
+                rep["lsp_real"] = sorted(real)
+            else:
+                rep["lsp_real_error"] = str(lrep)[:200]
+        return reps
     finally:
         for d in roots:
             shutil.rmtree(d, ignore_errors=True)
@@ -144,7 +173,9 @@ def decide_resolution(s, rep):
     if "panic" in rep or "crash" in rep or "timeout" in rep:
         return Verdict("violated", "%s: resolver crashed/hung (%s)" % (s["class"], rep.get("panic", "process died")))
     cli = rep["cli"]
-    lsp = set(rep["lsp"]["markers"])
+    if "lsp_real" not in rep:
+        return Verdict("inconclusive", "language server session did not complete: %s" % rep.get("lsp_real_error", "?")[:80])
+    lsp = set(rep["lsp_real"])
     exp = set(s["expected"])
     if not cli["ok"]:
         return Verdict("violated", "%s: command-line collector fails on a resolvable project: %s" % (s["class"], cli.get("error", "")[:80]))
